@@ -598,9 +598,18 @@ def t1(ctx, label, pre, post, total, small, configs, full_universe=False, strict
     if res.error:
         raise MachineryError("T1 %s: %s" % (label, res.error))
     if not res.violated:
-        idle = [a for a in ("Pre", "DoClone", "Post") if res.coverage.get(a, (0, 0))[1] == 0]
-        if idle:
-            raise MachineryError("T1 %s is vacuous: actions never taken: %s" % (label, idle))
+        # TLC reports coverage per disjunct of Next (source order: Pre, DoClone, Post)
+        import re
+
+        dis = sorted(
+            (int(m.group(1)), int(m.group(3)))
+            for m in re.finditer(r"^<Next line \d+, col \d+ to line \d+, col \d+ of module MCModelClone \((\d+) (\d+) \d+ \d+\)>: \d+:(\d+)", res.stdout, re.M)
+        )
+        taken = dict(zip(("Pre", "DoClone", "Post"), [n for _, n in dis]))
+        idle = [a for a in ("Pre", "DoClone", "Post") if not taken.get(a)]
+        if len(dis) != 3 or idle:
+            raise MachineryError("T1 %s is vacuous: actions never taken: %s (%r)" % (label, idle, dis))
+        res.coverage.update({a: (0, n) for a, n in taken.items()})
     cex = {}
     for p in res.printed:
         if p and p[0] == "T1CEX":
